@@ -500,6 +500,55 @@ func runH2(k *kernel.K, focus string) {
 	k.Drain()
 	k.ReleaseAll()
 	k.Drain()
+	if focus == "C09" && k.Inconclusive == "" && w.Chance(1, 4) {
+		// A sender that has sent everything it had closes its connection (a server after its last
+		// response and a GOAWAY, a client that is done). What the relay has accepted from it by then
+		// is still owed to the receiver once the receiver's credit covers it: either the credit
+		// comes after the close (mode "grant_after_close"), or it was there all along and only the
+		// receiver's transport was slow (mode "slow_reader").
+		snd, rcv := sv, cl
+		if w.Chance(1, 3) {
+			snd, rcv = cl, sv
+		}
+		mode := []string{"grant_after_close", "slow_reader"}[w.Draw(2)]
+		wr, _, rd := snd.C.Stats()
+		if d, _ := hw.done(); !d && snd.next >= len(snd.Script) && !snd.EOF && !snd.RST && !rcv.EOF && !rcv.RST && wr == rd {
+			k.Probe("sender_closes_after_transfer_" + mode)
+			if mode == "slow_reader" {
+				rcv.C.Peer().Stall(true)
+				rcv.OpenAllWindows(streamsOf(snd.Sent))
+				k.Drain()
+			}
+			snd.Close()
+			k.Drain()
+			if mode == "slow_reader" {
+				rcv.C.Peer().Stall(false)
+			} else {
+				rcv.OpenAllWindows(streamsOf(snd.Sent))
+			}
+			k.Drain()
+			for _, id := range streamsOf(snd.Sent) {
+				se, re := streamEvents(snd.Sent, id), streamEvents(rcv.Recv, id)
+				sent, got := 0, 0
+				for _, e := range se {
+					if e.Kind == "data" {
+						sent += len(e.Data)
+					}
+				}
+				for _, e := range re {
+					if e.Kind == "data" {
+						got += len(e.Data)
+					}
+				}
+				if len(re) < len(se) || got < sent {
+					k.Fail("C09.no_strand", map[string]string{"after": "sender_closed", "mode": mode}, "%s had sent everything (the relay had read all %d bytes of its connection) and closed; %s then had credit for all of it (%s), yet of stream %d only %d of %d events and %d of %d DATA bytes arrived (receiver saw end of connection: %v)", snd.Name, wr, rcv.Name, mode, id, len(re), len(se), got, sent, rcv.EOF)
+					break
+				}
+			}
+			hw.cleanup()
+			return
+		}
+	}
 	// Finally every receiver opens all of its windows wide, so that nothing can legitimately
 	// remain queued in the relay.
 	cl.OpenAllWindows(streamsOf(sv.Sent))
